@@ -493,7 +493,8 @@ func c10One(env *fw.Env, i int64) {
 		env.Event("stale_backlog_connections_drained", int64(rg.L.Drain()))
 	}
 	// the reopened connection is judged on function, not on the program's hostile timers
-	_ = rg.Conn.UpdateConfigOptions(hsms.WithT3(5*time.Second), hsms.WithT6(5*time.Second), hsms.WithT7(10*time.Second), hsms.WithT8(5*time.Second))
+	// (a 300 ms write timeout expires between arming and writev when a loaded machine deschedules the sender that long)
+	_ = rg.Conn.UpdateConfigOptions(hsms.WithT3(5*time.Second), hsms.WithT6(5*time.Second), hsms.WithT7(10*time.Second), hsms.WithT8(5*time.Second), hsms.WithWriteTimeout(10*time.Second))
 	var pc *peer.Conn
 	err = rg.Open()
 	if err == nil {
